@@ -17,6 +17,7 @@ def graphs(k):
         out.append(("complete-1", gen.induced(1, [True] * 4)))
         out.append(("ACG-1", gen.induced(1, [True, True, True, False])))
         out.append(("AC-1", gen.induced(1, [True, True, False, False])))
+        out.append(("chain-1", [[0, 1, -1, -1], [-1, -1, 2, -1], [0, -1, -1, -1], [-1, -1, -1, -1]]))      # out-degrees 2, 1, 1: unique repairs
         return out
     if k == 2:
         out.append(("gc-balanced-2", GC2))
